@@ -17,7 +17,7 @@ func (c08) ID() string { return "C08" }
 
 func (c08) Budget(tier string) int {
 	if tier == "thorough" {
-		return len(allCartConfigs) * 400
+		return len(allCartConfigs) * 1200
 	}
 	return len(allCartConfigs) * 40
 }
